@@ -3,6 +3,7 @@ real API objects with a wire spy, and per-operation records."""
 
 import asyncio
 import itertools
+import time
 from typing import Any, Dict, List, Optional
 
 from .fakes import tcp_device as td
@@ -14,7 +15,7 @@ class OperationHung(Exception):
 
 
 _hangs_seen = 0
-OP_TIMEOUT_S = 20.0   # generous: on loopback a reply is there in microseconds; only a client waiting for bytes nobody will send gets here
+OP_TIMEOUT_S = 20.0   # real seconds: measured with time.monotonic below, immune to the virtual reply delays of C03   # generous: on loopback a reply is there in microseconds; only a client waiting for bytes nobody will send gets here
 
 
 class OpRecord:
@@ -40,13 +41,27 @@ class Client:
         global _hangs_seen
         # the first two hangs of a worker get the full, generous wait; once they are on record the rest only need to be skipped quickly
         limit = OP_TIMEOUT_S if _hangs_seen < 2 else 1.0
+        task = asyncio.ensure_future(ops.call(self.api, op, args, remote))
+        t0, spins = time.monotonic(), 0
+        while not task.done():
+            # a watchdog on the real clock (the event loop's clock may be warped by virtual reply delays)
+            spins += 1
+            await asyncio.sleep(0 if spins < 300 else 0.002)
+            if time.monotonic() - t0 > limit:
+                break
         try:
-            rec.value = await asyncio.wait_for(ops.call(self.api, op, args, remote), limit)
-            rec.outcome = "return"
-        except asyncio.TimeoutError:
-            _hangs_seen += 1
-            rec.outcome = "raise"
-            rec.exc = OperationHung(f"{op} did not finish within {limit:.0f} s of a flushed reply")
+            if task.done():
+                rec.value = task.result()
+                rec.outcome = "return"
+            else:
+                task.cancel()
+                try:
+                    await task
+                except BaseException:
+                    pass
+                _hangs_seen += 1
+                rec.outcome = "raise"
+                rec.exc = OperationHung(f"{op} did not finish within {limit:.0f} s of a flushed reply")
         except asyncio.CancelledError:
             raise
         except BaseException as exc:  # the oracle judges the type
